@@ -120,20 +120,33 @@ def fresh_load(version, path, flavour="sync"):
 
 
 def listing(directory):
+    """{relative name: bytes | ("link", target)} for everything below `directory` (symlinks kept as links)."""
     out = {}
-    for name in sorted(os.listdir(directory)):
-        full = os.path.join(directory, name)
-        if os.path.isfile(full):
-            with open(full, "rb") as fh:
-                out[name] = fh.read()
-    return out
+    for root, dirs, files in os.walk(directory):
+        for name in sorted(files + [d for d in dirs if os.path.islink(os.path.join(root, d))]):
+            full = os.path.join(root, name)
+            rel = os.path.relpath(full, directory)
+            if os.path.islink(full):
+                out[rel] = ("link", os.readlink(full))
+            elif os.path.isfile(full):
+                with open(full, "rb") as fh:
+                    out[rel] = fh.read()
+    return dict(sorted(out.items()))
 
 
 def restore(directory, files):
+    """Make `directory` contain exactly `files` (as returned by listing)."""
     for name in os.listdir(directory):
         full = os.path.join(directory, name)
-        if os.path.isfile(full):
+        if os.path.isdir(full) and not os.path.islink(full):
+            shutil.rmtree(full)
+        else:
             os.remove(full)
     for name, data in files.items():
-        with open(os.path.join(directory, name), "wb") as fh:
-            fh.write(data)
+        full = os.path.join(directory, name)
+        os.makedirs(os.path.dirname(full), exist_ok=True)
+        if isinstance(data, tuple):
+            os.symlink(data[1], full)
+        else:
+            with open(full, "wb") as fh:
+                fh.write(data)
